@@ -95,18 +95,23 @@ package gabi
 //@   modifies nothing
 //@   mustfail canary: !result
 
+//@ # the commitment the issuer reconstructs from a ProofU: U^(-c) * S^(v'-response) * R_0^(s-response) * prod R_i^(m_i-response) mod N, reduced at every step
+//@ mapfold ucommit(p, pk, k) := powsigned(val(pk.R[k]), val(p.MUserResponses[k]), val(pk.N)) op mulmod val(pk.N) from rem(prod(prod(powsigned(val(p.U), 0 - val(p.C), val(pk.N)), powsigned(val(pk.S), val(p.VPrimeResponse), val(pk.N))), powsigned(val(pk.R[0]), val(p.SResponse), val(pk.N))), val(pk.N))
 //@ func (*ProofU).reconstructUcommit
 //@   property C02 C06 C08
 //@   requires p != nil && wfpk(pk)
 //@   ensures checked: err == nil ==> structU(p, pk) && result0 != nil && fresh(result0)
+//@   ensures[C06] ucommit: err == nil ==> val(result0) == old(ucommit(p, pk, p.MUserResponses))
 //@   ensures fail: err != nil ==> result0 == nil
 //@   modifies nothing
 //@   mustfail canary: err != nil
+//@   loop 0 invariant Ucommit != nil && fresh(Ucommit) && val(Ucommit) == old(ucommit(p, pk))
 
 //@ func (*ProofU).ChallengeContribution
 //@   property C02 C06 C08
 //@   requires p != nil && wfpk(pk)
 //@   ensures shape: err == nil ==> structU(p, pk) && len(result0) == 2 && result0[0] == p.U && result0[1] != nil && fresh(result0[1]) && fresh(result0)
+//@   ensures[C06] ucontrib: err == nil ==> val(result0[1]) == old(ucommit(p, pk, p.MUserResponses))
 //@   ensures fail: err != nil ==> result0 == nil
 //@   modifies nothing
 
@@ -445,3 +450,18 @@ package gabi
 //@   loop 0 modifies mapof(aResponses), onlyfresh("BV")
 //@   loop 1 invariant 0 <= $i && $i <= len(d.disclosedAttributes) && aDisclosed != nil && fresh(aDisclosed) && (forall k in 0..$i :: in(aDisclosed, d.disclosedAttributes[k]) && aDisclosed[d.disclosedAttributes[k]] == d.attributes[d.disclosedAttributes[k]]) && (forall idx in dom(aDisclosed) :: exists k in 0..$i :: d.disclosedAttributes[k] == idx)
 //@   loop 1 modifies mapof(aDisclosed)
+
+//@ # ---- keyshare server, first message (C14): one randomizer for all keys, short enough for the smallest key ----
+//@ func NewKeyshareCommitments
+//@   property C14
+//@   safety
+//@   requires secret != nil && val(secret) >= 0 && forall i in 0..len(keys) :: keys[i] != nil && keys[i].N != nil && val(keys[i].N) > 1 && len(keys[i].R) >= 1 && keys[i].R[0] != nil
+//@   assume in(gabikeys.DefaultSystemParameters, 1024) && in(gabikeys.DefaultSystemParameters, 2048) && gabikeys.DefaultSystemParameters[1024] != nil && gabikeys.DefaultSystemParameters[2048] != nil && gabikeys.DefaultSystemParameters[1024].LmCommit <= gabikeys.DefaultSystemParameters[2048].LmCommit
+//@   ensures size: err == nil ==> result0 != nil && 0 <= val(result0) && val(result0) < pow2(gabikeys.DefaultSystemParameters[2048].LmCommit)
+//@   ensures[C14] smallest: err == nil ==> forall i in 0..len(keys) :: bitlen(val(keys[i].N)) == 1024 ==> val(result0) < pow2(gabikeys.DefaultSystemParameters[1024].LmCommit) && bitlen(val(secret)) <= gabikeys.DefaultSystemParameters[1024].Lm - 1
+//@   ensures commitments: err == nil ==> len(result1) == len(keys) && forall i in 0..len(keys) :: result1[i] != nil && result1[i].P != nil && result1[i].Pcommit != nil && val(result1[i].P) == pow(val(keys[i].R[0]), val(secret), val(keys[i].N)) && val(result1[i].Pcommit) == pow(val(keys[i].R[0]), val(result0), val(keys[i].N))
+//@   ensures fail: err != nil ==> result0 == nil && result1 == nil
+//@   modifies nothing
+//@   loop 0 invariant 0 <= $i && $i <= len(keys) && randLength == gabikeys.DefaultSystemParameters[2048].LmCommit && forall j in 0..$i :: bitlen(val(keys[j].N)) != 1024
+//@   loop 1 invariant 0 <= $i && $i <= len(keys) && len(exponentiatedCommitments) == $i && (exponentiatedCommitments == nil || fresh(exponentiatedCommitments)) && forall j in 0..$i :: exponentiatedCommitments[j] != nil && fresh(exponentiatedCommitments[j]) && exponentiatedCommitments[j].P != nil && exponentiatedCommitments[j].Pcommit != nil && val(exponentiatedCommitments[j].P) == pow(val(keys[j].R[0]), val(secret), val(keys[j].N)) && val(exponentiatedCommitments[j].Pcommit) == pow(val(keys[j].R[0]), val(randomizer), val(keys[j].N))
+//@   loop 1 modifies elems(exponentiatedCommitments)
